@@ -396,8 +396,9 @@ def check_property(prop, tier, seed):
                 log('  ' + d['rendered'].strip().replace('\n', '\n  ')[:800])
         return 2
     n_ok = sum(1 for o in all_obs if o['status'] == 'discharged')
-    log('OK property=%s tier=%s obligations=%d discharged=%d units=%s wall=%.1fs' % (
-        prop, tier, len(all_obs), n_ok, ','.join(units), time.time() - t0))
+    n_kf = sum(1 for o in all_obs if o['status'] == 'known-finding')
+    log('OK property=%s tier=%s obligations=%d discharged=%d%s units=%s wall=%.1fs' % (
+        prop, tier, len(all_obs) - n_kf, n_ok, (' known-finding-obligations=%d' % n_kf) if n_kf else '', ','.join(units), time.time() - t0))
     return 0
 
 
@@ -435,7 +436,10 @@ def write_evidence(prop, tier, seed, units, results, all_obs, infra, violations,
         canaries_ok += ur.get('canaries_failed_as_expected', 0)
         for f in res.get('function_breakdown', []):
             fb.append({'unit': n, 'function': f['function'], 'ms': f['ms'], 'rlimit': f['rlimit'], 'success': f['success']})
-    counted = [o for o in all_obs if o['kind'] != 'proof-internal']
+    # an obligation that fails because of a committed known finding is not part of the proof-level claim: it is listed
+    # separately (known_finding_obligations) together with the finding it belongs to
+    kf_obs = [o for o in all_obs if o.get('status') == 'known-finding']
+    counted = [o for o in all_obs if o['kind'] != 'proof-internal' and o.get('status') != 'known-finding']
     discharged = [o for o in counted if o['status'] == 'discharged']
     samples = [{'obligation': o['id'], 'kind': o['kind'], 'text': o['text'], 'status': o['status']} for o in counted[:6]]
     trusted_base = sorted(set(trusted)) + [
@@ -459,6 +463,7 @@ def write_evidence(prop, tier, seed, units, results, all_obs, infra, violations,
             'bounded': extra.get('bounded', []),
             'kani': extra.get('kani', []),
             'known_findings': extra.get('known_findings', []),
+            'known_finding_obligations': [{'obligation': o['id'], 'text': o.get('text')} for o in kf_obs],
             'undecided': [o['id'] for o in undecided],
             'infrastructure_errors': infra,
             'units': units,
